@@ -62,6 +62,12 @@ func TestC05Random(t *testing.T) {
 			b := rapid.SampledFrom([]int{HReturns, HReturns, HReturns, HAbsent, HPanics, HExits}).Draw(rt, "beh")
 			c.Beh = append(c.Beh, b)
 		}
+		if chance(rt, 1, 4, "helpinhooks") {
+			for i := 0; i < 2*d+3; i++ {
+				c.HelpIn = append(c.HelpIn, chance(rt, 1, 3, "helpin"))
+			}
+			st.Class("random:a-hook-prints-the-root-help")
+		}
 		st.Eval()
 		Begin("C05", "flow", c)
 		v, cl, faulty := CheckC05(c)
